@@ -352,7 +352,6 @@ package updog
 //@     invariant forall j idx(e.Exprs) :: j < $i ==> wf(e.Exprs[j])
 //@     invariant 0 <= $i
 
-
 // ---------------------------------------------------------------------------------------------------------------
 // index.go — opening, column getters (C15, C16, C14)
 
@@ -402,7 +401,6 @@ package updog
 //@ fieldinv global.keySchema: len($v) == 1 && cap($v) == 1 && arr($v) != nil && heap("[]uint8")[arr($v)][off($v)] == 83
 //@ fieldinv global.keyNextRowID: len($v) == 1 && cap($v) == 1 && arr($v) != nil && heap("[]uint8")[arr($v)][off($v)] == 73
 //@ fieldinv global.keyPrefixValue: len($v) == 1 && cap($v) == 1 && arr($v) != nil && heap("[]uint8")[arr($v)][off($v)] == 86
-
 
 //@ func [C15,C16,C14] newPreloadedColGetter(db) (g, err)
 //@   requires DBOpen(db)
